@@ -105,6 +105,17 @@ def run(ctx, pid):
 
     sfuts = [pool.submit(stress, k, r) for k in kinds for r in modes]
 
+    # ---- random schedules over the real code's own gates (no model prescribes the order; catches code that left the model)
+    def explore(mode, nprod, nmsgs):
+        t = ctx.tmp("explore-%d-%d.ndjson" % (mode, nprod))
+        n = 250 if quick else 3000
+        p = ctx.run([exe, "explore", str(n), str(nprod), str(nmsgs), str(ctx.seed * 10 + mode), t, "2", str(mode)], timeout=3000)
+        rs = json.loads(p.stdout.strip().splitlines()[-1])
+        mm, nl = monitor(ctx, t, "explore-%d-%d" % (mode, nprod))
+        return ("explore mode=%d producers=%d" % (mode, nprod)), rs, mm, nl, t
+
+    sfuts += [pool.submit(explore, m, np_, nm) for m in modes for (np_, nm) in ((2, 3), (3, 2))]
+
     # ---- spec -> code
     def replay(label, dump_fut, nmsgs, ops, nsel):
         d = dump_fut.result()
@@ -130,8 +141,8 @@ def run(ctx, pid):
         cov = {"states": st, "transitions": tr, "traces_validated_against_impl": tot["hist"], "samples": samples[:4],
                "evaluations": tot["hist"], "distinct_nontrivial": tot["walks"],
                "rule": "executions = puppet replays of edge-cover walks of the ActorTurn.tla state graphs (base, restart, pre-fix "
-                       "restart) on a real actor system + free-running 3-sender runs per FIFO mailbox kind with/without concurrent "
-                       "Restart; distinct_nontrivial = distinct edge-cover walks replayed (each interleaves >= 2 threads)",
+                       "restart) on a real actor system + seeded random (PCT-style, hand-off biased) schedules over the real gates "
+                       "+ free-running 3-sender runs per FIFO mailbox kind with/without concurrent Restart/Stop/PoisonPill; distinct_nontrivial = distinct edge-cover walks replayed (each interleaves >= 2 threads)",
                "atomic_steps_replayed": tot["steps"], "replay_drift": tot["drift"], "events_judged": tot["events"],
                "not_quiescent": tot["notq"], "mismatches_for_other_properties": dict(others), "known_finding_hits": dict(known_hits), "exhaustive": False}
         ctx.evidence("model_checking", cov,
